@@ -314,6 +314,7 @@ def run_uids(case: dict, trace: bool = False) -> dict:
 
 class C04(Profile):
     id = 'C04'
+    BACKENDS = ('dict', 'dict', 'dict', 'maildir')
     level = 'exploration'
     quick_budget_s = 40.0
     thorough_budget_s = 400.0
@@ -339,7 +340,9 @@ class C04(Profile):
     components = C01.components
 
     def gen(self, rng, tier):
-        return gen_uid_case(rng, tier)
+        from .common import backends, finish_cfg
+        return finish_cfg(gen_uid_case(
+            rng, tier, backends=backends(self.BACKENDS)), rng)
 
     def run(self, case, trace=False):
         return run_uids(case, trace)
